@@ -259,6 +259,29 @@ pub fn check(c: &Case, obs: &mut Obs) -> Result<(), String> {
     }
 }
 
+// ------------------------------------------------------------------ realistic stream
+
+fn real_strategy(_t: Tier) -> BoxedStrategy<Case> {
+    let pats: Vec<&'static str> =
+        crate::props::c17::SEED_PKGDEPS.lines().filter(|l| !l.is_empty() && !l.contains(['<', '>', '{', '}'])).collect();
+    let names: Vec<&'static str> = crate::props::c17::SEED_PKGNAMES.lines().filter(|l| !l.is_empty()).collect();
+    (0..pats.len(), 0..names.len(), 0u8..10, any::<u8>(), any::<u16>())
+        .prop_map(move |(i, j, mode, mk, sel)| {
+            let pattern = pats[i].to_string();
+            let lit: String = pattern.chars().take_while(|c| !['*', '?', '['].contains(c)).collect();
+            let nm = names[j];
+            let ver = nm.rsplit('-').next().unwrap_or("");
+            let name = match mode {
+                0..=3 => format!("{}{}", lit, ver),
+                4..=5 => mutate(&format!("{}{}", lit, ver), mk, sel),
+                6 => format!("{}x-{}", lit.trim_end_matches('-'), ver),
+                _ => nm.to_string(),
+            };
+            Case { pattern, name }
+        })
+        .boxed()
+}
+
 pub fn property() -> Property {
     Property {
         id: "C05",
@@ -268,8 +291,9 @@ pub fn property() -> Property {
             "sets contain only alphanumeric members and ascending ranges",
         ],
         streams: vec![
-            random_stream("patterns", "grammar-generated glob / plain patterns against instances and mutations", case_strategy, |t| t.pick(60_000, 3_000_000), check),
+            random_stream("patterns", "grammar-generated glob / plain patterns against instances and mutations", case_strategy, |t| t.pick(200_000, 3_000_000), check),
             random_stream("malformed", "malformed globs must be rejected at compile time", malformed_strategy, |t| t.pick(200, 2_000), check),
+            random_stream("realistic", "real pkgsrc glob / plain patterns (sample of tests/data/pkgdeps.txt) against real package names built on their literal prefix", real_strategy, |t| t.pick(60_000, 1_000_000), check),
         ],
         selfcheck: m::selfcheck,
         hang_is_violation: false,
